@@ -1,6 +1,7 @@
 # Copyright 2020 National Technology & Engineering Solutions of Sandia, LLC (NTESS).
 # Under the terms of Contract DE-NA0003525 with NTESS, the U.S. Government retains
 # certain rights in this software.
+from numbers import Number
 from typing import Dict
 from contextlib import contextmanager
 
@@ -628,9 +629,9 @@ class GateMemoizer:
         """Basically just replace all lists with tuples, recursively."""
         if isinstance(obj, (list, tuple)):
             return tuple(cls._make_hashable(v) for v in obj)
-        elif isinstance(obj, (int, float)):
-            # 1, 1.0 and True (or 0.0 and -0.0) are equal as keys but are
-            # different literals
+        elif isinstance(obj, Number):
+            # 1, 1.0 and True (or 0.0 and -0.0, or equal numbers of other
+            # numeric types) are equal as keys but are different literals
             return (type(obj).__name__, repr(obj))
         else:
             return obj
